@@ -11,7 +11,8 @@
 From Coq Require Import List Bool Arith NArith ZArith QArith Lia.
 From DV Require Import Common.Res Common.Str Common.Jv.
 From DV Require Import Ext.Types Ext.Classes Ext.Seq Ext.Model Ext.Spec Ext.ValidFacts Ext.ProofsValidBase.
-From DV Require Import Link.Abs Link.ProofsTop Link.Examples.
+From DV Require Import Ext.ProofsSimplifyCanon.
+From DV Require Import Link.Abs Link.ProofsTop Link.ProofsRules Link.Examples.
 Import ListNotations.
 Local Open Scope nat_scope.
 
@@ -68,3 +69,26 @@ Example C10_gates_accept_valid_nonvacuous :
   valid lx4 /\ CM.from_runtime_repr (to_content qtok_dec lx4) = Ok (to_content qtok_dec lx4) /\
   CM.wrapper_init [(0%Z, to_content qtok_dec lx_zero); (6%Z, JNull); (0%Z, JObj [])] false JNull = Err EKey.
 Proof. split; [apply lx4_ok|]. split; vm_compute; reflexivity. Qed.
+
+(** Against the LITERAL rules of the property ([Content.Rules.valid_rules]: positive extents, an affine of numbers,
+    exactly `multiplicity` values as a list for every varying class -- multiplicity one included --, no key in two of
+    the six class dictionaries) the two provisos disappear: validity of the working model IS the literal rules on the
+    content.  ([storable]: the extension is the reading of a content dictionary -- every entry has a base dictionary,
+    constants are singletons, the keys of one class are distinct; [hdr_tight]: base dictionaries exactly for the classes
+    of the shape, as make_empty builds them.  The forward direction needs neither.) *)
+Theorem C10_valid_iff_rules :
+  forall (qtok : Q -> str) (e : ext jv),
+    (valid e -> CR.valid_rules (to_content qtok e) = true) /\
+    (storable e -> hdr_tight (hdr_of e) -> (valid e <-> CR.valid_rules (to_content qtok e) = true)).
+Proof. intros qtok e. split; [apply valid_rules_to | apply valid_iff_rules]. Qed.
+
+Example C10_valid_iff_rules_nonvacuous :
+  valid lx5 /\ storable lx5 /\ hdr_tight (hdr_of lx5) /\ CR.valid_rules (to_content qtok_dec lx5) = true /\
+  (* the three contents that check_valid lets through are rejected by the literal rules, except the stale one *)
+  CR.valid_rules (to_content qtok_dec lx_degenerate) = false /\ CR.valid_rules (to_content qtok_dec lx_zero) = false /\
+  CR.valid_rules (to_content qtok_dec lx_stale) = true /\ ~ hdr_tight (hdr_of lx_stale).
+Proof.
+  split; [apply lx5_ok|]. split; [apply storable_of_valid, lx5_ok|]. split; [exact lx5_tight|].
+  split; [vm_compute; reflexivity|]. split; [vm_compute; reflexivity|]. split; [vm_compute; reflexivity|].
+  split; [vm_compute; reflexivity|]. intros H. specialize (H TSamples). discriminate H.
+Qed.
